@@ -56,7 +56,7 @@ TIERS = {
         simulate=dict(num=200, depth=10, keep=1000,
                       consts=dict(Paths={1, 2}, Handles={1, 2}, ChunkIds=CHUNKS8, Hdrs={"none", "h1", "h2"},
                                   Delims={"none", "c", "t", "s"}, Modes=MODES)),
-        random=400,
+        random=800,
         mechanism=dict(depth=4, tour_depth=3, dev_depth=4),
     ),
     "thorough": dict(
@@ -71,7 +71,7 @@ TIERS = {
         ],
         behaviours=dict(Paths={1}, Handles={1}, ChunkIds=CHUNKS5, Hdrs={"none", "h1"}, Delims={"none", "c"},
                         Modes=MODES, MaxDepth=3),
-        tour=dict(Paths={1}, Handles={1}, ChunkIds=CHUNKS5, Hdrs={"none", "h1"}, Delims={"none", "c", "t", "s"},
+        tour=dict(Paths={1}, Handles={1}, ChunkIds={"a", "b", "n", "o"}, Hdrs={"none", "h1"}, Delims={"none", "c", "s"},
                   Modes=MODES, MaxDepth=5),
         tour_keep=30000,
         simulate=dict(num=3000, depth=12, keep=30000,
@@ -166,7 +166,11 @@ def signature(rec, step, clauses, cls):
     e = rec["done"][step - 1]
     entry = rc.entry_name(e, rec["v"]["writer"], rec["v"]["reader"] if e["op"] != "hread" else 0, rec["v"].get("lib", "sfile"))
     op = e["op"]
-    if op == "open":
+    if op == "open" and still_open(rec["done"], step):
+        # opening an object again closes what it had open: what it wrote there becomes observable at this step
+        c = "file=%s,implicit_close,writes=%s,object=%s" % (cls.get("pre"), handle_writes_class(rec["done"], step),
+                                                            object_use(rec, step, before_this_open=True))
+    elif op == "open":
         c = "file=%s,object=%s" % (cls.get("pre"), object_use(rec, step))
     elif op == "hwrite":
         c = "first_write=%s,chunk=%s,%s,object=%s" % (cls.get("fresh"), cls.get("compat"), cls.get("kind"), object_use(rec, step))
@@ -180,15 +184,26 @@ def signature(rec, step, clauses, cls):
     return "%s|%s|%s" % (entry, clauses[0], c)
 
 
-def object_use(rec, step):
+def still_open(done, step):
+    """the handle of the open call at `step` was open when it was called"""
+    h = done[step - 1]["h"]
+    for e in reversed(done[:step - 1]):
+        if e["h"] == h and e["op"] == "hclose":
+            return False
+        if e["h"] == h and e["op"] == "open":
+            return e["res"]["err"] == "none" and e["res"].get("size", -1) is not None
+    return False
+
+
+def object_use(rec, step, before_this_open=False):
     """how the handle object of the call at `step` was used before (for the signature only): `new` - first opened for
     this; `reopened` - the object was opened before (closed or not) and opened again; plus `+partial_read` when a
     partial read through it preceded a write since its last open"""
     done = rec["done"]
     h = done[step - 1]["h"]
-    opens = [i for i, e in enumerate(done[:step]) if e["op"] == "open" and e["h"] == h]
+    opens = [i for i, e in enumerate(done[:step - 1 if before_this_open else step]) if e["op"] == "open" and e["h"] == h]
     use = "new" if len(opens) <= 1 or not rec["v"].get("reuse", True) else "reopened"
-    since = done[(opens[-1] if opens else 0):step]
+    since = done[(opens[-1] if opens else 0):(step - 1 if before_this_open else step)]
     partial = False
     for e in since:
         if e["h"] != h:
@@ -470,7 +485,9 @@ def run(ctx):
         mechanism(ctx)
     if only:
         return
-    # 6. binding self-test: corrupt single observations of accepted traces; exactly those must be rejected
+    # 6. vacuity of the dimensions: handle objects opened again after use, partial reads before writes, bare Recfile handles
+    dimension_guard(ctx, all_recs)
+    # 7. binding self-test: corrupt single observations of accepted traces; exactly those must be rejected
     selftest(ctx, all_recs)
     # 7. mechanism
     mechanism(ctx)
@@ -487,7 +504,14 @@ def run(ctx):
                 "code: every behaviour of length %d over %s (%d), a transition tour of the depth-%d graph (%d edges, each "
                 "reached by the breadth-first history of its source = %d maximal histories, %d replayed), %d of the %d "
                 "behaviours of depth %d exported by tlc -simulate on the full model, and %d seeded random call sequences of "
-                "6-24 calls; each under one of %d dtype families x %d writer x %d reader entry points, every file read back "
+                "6-24 calls; a handle id is one handle object for the whole history: Open on it again (closed or still "
+                "open, any of the modes w w+ r+ r, any path) re-opens the same SFile object (1 trace in 5: a new object "
+                "per open), reads through a handle ask for all rows / rows=[0] / [0:2] / two columns of row 0 and are "
+                "interleaved with writes through it in every order, 1 trace in 7 drives bare recfile.Recfile handles "
+                "(header-less calls only), handles left open are closed at the end so that what they wrote is judged; the "
+                "model's ghost variable obj (last header held, stream position class) keeps apart for the tour the "
+                "histories an implementation could tell apart; "
+                "each under one of %d dtype families x %d writer x %d reader entry points, every file read back "
                 "by a fresh reader after every call (3 of 4 traces) or after the last call and after every rejected call; all "
                 "recorded traces judged by RecStoreTrace.tla; a case is distinct by (event list, concretisation), "
                 "non-trivial when it contains a write" %
@@ -509,6 +533,9 @@ def run(ctx):
         "a path holds after a handle was opened on it and nothing written is not judged; the writing handle's own nrows "
         "attribute is not judged (the stored count is)",
         "text files carry benign values (C04 decides text value fidelity); binary rows are adversarial byte patterns",
+        "bare recfile.Recfile handles: only calls that need no header (matching chunks, no append to a missing file, plain "
+        "path names); the caller-supplied dtype / delimiter are the ones the file was created with",
+        "opening for reading ('r') something that is not a record file: unconstrained",
         "crash points are not modelled",
     ]
     ctx.trusted_base.append("recstore_common: token <-> row bytes tables, descr/header id projection, fresh-reader observation")
@@ -558,6 +585,46 @@ SELFTEST_MUTS = {
 }
 SELFTEST_WANT = {"rows": {"rows"}, "stored_count": {"stored_count"}, "header": {"header"},
                  "dropped_row": {"rows", "stored_count"}}
+
+
+def dimension_guard(ctx, all_recs):
+    """how many executed traces exercise each added dimension (accepted writes only); none -> the run is vacuous"""
+    n = {"reopened_object_then_write": 0, "reopened_while_open": 0, "partial_read_then_write": 0,
+         "bare_recfile_handle_writes": 0, "read_mode_handle_reads": 0}
+    for r in all_recs:
+        used, state, hit = {}, {}, set()
+        lib = r["v"].get("lib", "sfile")
+        for e in r["done"]:
+            h, ok = e["h"], e["res"]["err"] == "none"
+            if e["op"] == "open":
+                if h in state and state[h] != "closed" and r["v"].get("reuse", True):
+                    hit.add("reopened_while_open")
+                state[h] = ("reopened" if used.get(h) and r["v"].get("reuse", True) else "new") if ok else "closed"
+                if ok and e["mode"] in ("r", "r+"):
+                    used[h] = True
+                state[(h, "mode")] = e["mode"]
+                state[(h, "partial")] = False
+            elif e["op"] == "hclose":
+                state[h] = "closed"
+            elif e["op"] == "hread" and ok:
+                if e.get("sel", "all") != "all":
+                    state[(h, "partial")] = True
+                if state.get((h, "mode")) == "r":
+                    hit.add("read_mode_handle_reads")
+            elif e["op"] == "hwrite" and ok:
+                if state.get(h) == "reopened":
+                    hit.add("reopened_object_then_write")
+                if state.get((h, "partial")):
+                    hit.add("partial_read_then_write")
+                if lib == "recfile":
+                    hit.add("bare_recfile_handle_writes")
+                used[h] = True
+        for k in hit:
+            n[k] += 1
+    ctx.note(dimension_traces=n)
+    missing = [k for k, v in n.items() if v == 0]
+    if missing:
+        raise MachineryError("no executed trace exercises: %s" % missing)
 
 
 def maximal_raw(behs):
